@@ -109,6 +109,11 @@ func genSpec(g *ev.RNG, hostile bool) spec {
 			for k := 0; k < nk; k++ {
 				m.Keys = append(m.Keys, keyPool[(ki+k)%len(keyPool)])
 			}
+			if nk > 0 && g.Intn(12) == 0 {
+				// a key called like the program label: with the prog label on the
+				// label set has a duplicate label name and is unrepresentable
+				m.Keys[g.Intn(nk)] = "prog"
+			}
 		}
 		m.Kind, m.Type = m.kind.String(), m.typ.String()
 		ns := g.Intn(6)
@@ -227,6 +232,11 @@ func expected(s spec) map[string]sample {
 			ok := true
 			for _, v := range ls.Labels {
 				if !utf8.ValidString(v) {
+					ok = false
+				}
+			}
+			for _, k := range m.Keys {
+				if k == "prog" && !s.OmitProg {
 					ok = false
 				}
 			}
